@@ -183,6 +183,11 @@ func vfH_dial_logic() {
 	if d2 == d1 {
 		d2 = 99 // the same dimension twice is the single-dimension case
 	}
+	if d2 != 99 && d1 != 10 && d2 != 10 {
+		// two dimensions varied (neither of them the Accept value): the random key
+		// is a fixed one (every key is covered by the single-dimension tier)
+		kr.fixed = true
+	}
 	for _, dim := range []int{d1, d2} {
 		switch dim {
 		case 0: // URL shapes
